@@ -5,7 +5,8 @@ from harness import heap_corr as hc, circgen as cg, simops_corr as sc, map_oracl
 
 THEOREMS = ['C08_init', 'C08_history_inv', 'C08_alloc_inv', 'C08_free_inv', 'C08_alloc_fresh', 'C08_free_live',
             'C08_live_disjoint', 'C08_high_water', 'C08_free_commute', 'C08_map_check_sound', 'C08_build_passes_certificate',
-            'C08_certificate_needs_reads_defined']
+            'C08_certificate_needs_reads_defined', 'C08_build_passes_certificate_reuse', 'C08_build_total_reuse',
+            'C08_reuse_nonvacuous', 'C08_build_passes_certificate_all', 'C08_build_total_all', 'C08_all_options_nonvacuous', 'C08_option_hypotheses_checkable']
 
 
 def gen_map_case(rng):
@@ -68,11 +69,15 @@ def run(ck):
                   f'implementation on {len(so_cases)} circuits x capacity vectors x options', ran and not bad, 'correspondence',
                   f'failing cases {bad[:8]}')
     sc.run_certs(ck, cert_circs, 'memory map')
+    sc.run_domain(ck, [x[0] for x in cert_circs], 'memory map')
     ck.rule('allocator: random alloc/free histories (mixed/LIFO/FIFO/bursts/same-size; sizes 1..64) compared after every step + '
             'invariant oracle; map: random circuits x capacity vectors x c_reuse x strip_forks, independent liveness/overlap/alias checker')
     ck.trust('the allocator theorems hold for ALL histories of the Gallina transcription Model/Heap.v (tied to sim.Heap by comparing '
-             'every table after every step); the map clause (no overlap of simultaneously live signals in SimOps) is NOT yet a theorem: '
-             'Model/SimOps.v is tied by correspondence and an independent overlap checker runs on the implementation\'s tables')
+             'every table after every step); the map clause (no overlap of simultaneously live signals in SimOps) is a theorem for all four '
+             'combinations of c_reuse and strip_forks (C08_build_passes_certificate_all: all wf acyclic netlists of known primitives whose '
+             'stripped forks have their input connected, all capacity vectors, c_caps_min > 0); the certificate is still evaluated per '
+             'generated case; Model/SimOps.v is tied by '
+             'correspondence and an independent overlap checker runs on the implementation\'s tables')
     for kind, desc, what in fails[:5]:
         ck.fail(f'{kind}', ('sim.Heap: ' if kind == 'heap' else 'sim.SimOps memory map: ') + what,
                 {'component': 'sim.Heap' if kind == 'heap' else 'sim.SimOps', 'input': desc, 'actual': what})
